@@ -253,3 +253,188 @@ Definition py_opaque_call (name : pystr) : res pyval := Raise Unmodelled.
 
 (* the value of an `...` / `pass` body: falling off the end *)
 Definition py_fall_off : res pyval := Ok PNone.
+
+(* ================================================================== class-level functions (structure_to_schema) *)
+
+(* the caller's definitions dict, where a function returns it next to its result: the dict itself is only ever
+   passed through and written by [defs_store]; its place in a returned tuple is marked by this token *)
+Definition defs_token : pyval := POther (s2p "definitions") [].
+
+(* attributes of CLASSES live in a heap: class name -> attribute name -> value (None: the class has no such
+   attribute); `C.m()` for a parameterless query method is the attribute "m()".  Other objects as [obj_attr]. *)
+Definition cheap := pystr -> pystr -> option pyval.
+
+Definition hobj_attr (h : cheap) (o : pyval) (a : pystr) : res pyval :=
+  match o with
+  | POther tg name =>
+      if pystr_eqb tg class_tag then match h name a with Some v => Ok v | None => Raise Unmodelled end
+      else Raise Unmodelled
+  | _ => obj_attr o a
+  end.
+
+Definition hobj_attr_def (h : cheap) (o : pyval) (a : pystr) (d : pyval) : res pyval :=
+  match o with
+  | POther tg name =>
+      if pystr_eqb tg class_tag then Ok (match h name a with Some v => v | None => d end)
+      else Raise Unmodelled
+  | _ => obj_attr_def o a d
+  end.
+
+(* issubclass(c, T): a class of the table by the table; any other class by its "__mro__" in the heap *)
+Definition py_issubclass_h (h : cheap) (tbl : class_table) (c : pyval) (t : pystr) : res bool :=
+  match c with
+  | POther tg name =>
+      if pystr_eqb tg class_tag then
+        match class_isa tbl name t with
+        | Some b => Ok b
+        | None =>
+            match h name (s2p "__mro__") with
+            | Some (PTuple l) => Ok (existsb (fun k => py_eq k (cls_val t)) l)
+            | _ => Raise Unmodelled
+            end
+        end
+      else Raise Unmodelled
+  | PStruct _ _ => Raise Unmodelled
+  | _ => Raise TypeError            (* issubclass() arg 1 must be a class *)
+  end.
+
+(* v is C, for a class C *)
+Definition py_is_class (v : pyval) (name : pystr) : bool :=
+  match v with
+  | POther tg n => pystr_eqb tg class_tag && pystr_eqb n name
+  | _ => false
+  end.
+
+(* list(x), d.keys(), d.items(), set(x) *)
+Definition py_list (v : pyval) : res pyval :=
+  match v with
+  | PList l | PTuple l | PDeque l | PSet _ l => Ok (PList l)
+  | PDict kv => Ok (PList (map fst kv))
+  | PNone | PBool _ | PNum _ => Raise TypeError
+  | _ => Raise Unmodelled
+  end.
+Definition py_dict_keys (v : pyval) : res pyval :=
+  match v with PDict kv => Ok (PList (map fst kv)) | _ => Raise Unmodelled end.
+Definition py_dict_items (v : pyval) : res pyval :=
+  match v with PDict kv => Ok (PList (map (fun p => PTuple [fst p; snd p]) kv)) | _ => Raise Unmodelled end.
+Definition py_set (v : pyval) : res pyval :=
+  match v with
+  | PList l | PTuple l | PDeque l | PSet _ l =>
+      if forallb py_hashable' l then Ok (PSet false (py_dedup l)) else Raise TypeError
+  | PNone | PBool _ | PNum _ => Raise TypeError
+  | _ => Raise Unmodelled
+  end.
+
+(* sorted(l) for a list of strings: code-point order *)
+Fixpoint cp_leb (a b : pystr) : bool :=
+  match a, b with
+  | [], _ => true
+  | _ :: _, [] => false
+  | x :: a', y :: b' => if N.ltb x y then true else if N.ltb y x then false else cp_leb a' b'
+  end.
+Fixpoint cp_insert (x : pystr) (l : list pystr) : list pystr :=
+  match l with
+  | [] => [x]
+  | y :: t => if cp_leb x y then x :: l else y :: cp_insert x t
+  end.
+Definition cp_sort (l : list pystr) : list pystr := fold_right cp_insert [] l.
+Fixpoint all_strs (l : list pyval) : option (list pystr) :=
+  match l with
+  | [] => Some []
+  | PStr s :: t => match all_strs t with Some r => Some (s :: r) | None => None end
+  | _ => None
+  end.
+Definition py_sorted (v : pyval) : res pyval :=
+  match v with
+  | PList l | PTuple l =>
+      match all_strs l with Some ss => Ok (PList (map PStr (cp_sort ss))) | None => Raise Unmodelled end
+  | _ => Raise Unmodelled
+  end.
+
+(* callable(v): data is not; objects and classes are not predicted *)
+Definition py_callable (v : pyval) : res pyval :=
+  match v with
+  | PStruct _ _ | POther _ _ => Raise Unmodelled
+  | _ => Ok (PBool false)
+  end.
+
+(* typedpy.commons.first_in(iterable) *)
+Definition py_first_in (v : pyval) : res pyval :=
+  match v with
+  | PList (x :: _) | PTuple (x :: _) => Ok x
+  | _ => Raise Unmodelled
+  end.
+
+(* OrderedDict([(k, v), ...]) *)
+Definition py_dict_of_pairs (v : pyval) : res pyval :=
+  match v with
+  | PList l =>
+      r <- mapM (fun p => match p with PTuple [k; x] => Ok (k, x) | _ => Raise Unmodelled end) l ;;
+      Ok (PDict (fold_left (fun acc p => dict_set acc (fst p) (snd p)) r []))
+  | _ => Raise Unmodelled
+  end.
+
+(* d.get(k, default) *)
+Definition py_dict_get_def (d k dflt : pyval) : res pyval :=
+  match d with
+  | PDict kv => if py_hashable' k then Ok (match dict_get kv k with Some v => v | None => dflt end) else Raise TypeError
+  | _ => Raise Unmodelled
+  end.
+
+(* l.index(x), l.pop(i), l.append(x) on a list VALUE; c[k] = v on a dict or a list *)
+Fixpoint index_of (xs : list pyval) (x : pyval) (i : Z) : option Z :=
+  match xs with
+  | [] => None
+  | y :: t => if py_eq y x then Some i else index_of t x (i + 1)
+  end.
+Definition py_list_index (l x : pyval) : res pyval :=
+  match l with
+  | PList xs => match index_of xs x 0 with Some i => Ok (zint i) | None => Raise ValueError end
+  | _ => Raise Unmodelled
+  end.
+Fixpoint remove_nth {A} (n : nat) (l : list A) : list A :=
+  match n, l with
+  | _, [] => []
+  | O, _ :: t => t
+  | S k, x :: t => x :: remove_nth k t
+  end.
+Fixpoint replace_nth {A} (n : nat) (v : A) (l : list A) : list A :=
+  match n, l with
+  | _, [] => []
+  | O, _ :: t => v :: t
+  | S k, x :: t => x :: replace_nth k v t
+  end.
+Definition py_list_pop (l i : pyval) : res pyval :=
+  match l, i with
+  | PList xs, PNum (NInt z) =>
+      if (0 <=? z) && (z <? lenZ' xs) then Ok (PList (remove_nth (Z.to_nat z) xs))
+      else if z <? 0 then Raise Unmodelled else Raise IndexError
+  | _, _ => Raise Unmodelled
+  end.
+Definition py_list_append (l x : pyval) : res pyval :=
+  match l with PList xs => Ok (PList (xs ++ [x])) | _ => Raise Unmodelled end.
+Definition py_setitem (c k v : pyval) : res pyval :=
+  match c with
+  | PDict _ => py_dict_setitem c k v
+  | PList xs =>
+      match k with
+      | PNum (NInt z) =>
+          if (0 <=? z) && (z <? lenZ' xs) then Ok (PList (replace_nth (Z.to_nat z) v xs))
+          else if z <? 0 then Raise Unmodelled else Raise IndexError
+      | _ => Raise Unmodelled
+      end
+  | _ => Raise Unmodelled
+  end.
+
+(* for x in l: <body that changes the locals gathered in the state> *)
+Fixpoint for_state {S} (xs : list pyval) (body : pyval -> S -> res S) (st : S) : res S :=
+  match xs with
+  | [] => Ok st
+  | x :: xs' => st' <- body x st ;; for_state xs' body st'
+  end.
+Definition py_for_state {S} (l : pyval) (body : pyval -> S -> res S) (st : S) : res S :=
+  match l with
+  | PList xs | PTuple xs | PDeque xs => for_state xs body st
+  | PNone | PBool _ | PNum _ => Raise TypeError
+  | _ => Raise Unmodelled
+  end.
